@@ -3504,9 +3504,25 @@ class StateEngine(object):
         check that state transitions only occur within the correct "States".
         """
         force_full_lookup = "Branch" in context["State"]
-        state, current_state_machine, state_path = find_state(
-            ASL["States"], current_state, force_full_lookup
-        )
+        try:
+            state, current_state_machine, state_path = find_state(
+                ASL["States"], current_state, force_full_lookup
+            )
+        except Exception as e:
+            # The definition has no usable "States" object to look the state up in.
+            state = None
+        if not isinstance(state, dict):  # A state is a JSON object.
+            state = None
+        if state == None or not isinstance(state.get("Type"), str):
+            """
+            The state cannot be interpreted, which fails the execution below,
+            unless its branch has already been terminated by such a failure in
+            a sibling branch or iteration, in which case the event is dropped.
+            """
+            timeout = ASL.get("TimeoutSeconds", self.execution_ttl)
+            if self.branch_has_terminated("", context, id, timeout):
+                return
+
         if state == None:  # state should be valid by this point
             message = ("{} attempted a transition to a non-existent "
                        "state \"{}\": Illegal State Machine.").format(
@@ -3517,8 +3533,16 @@ class StateEngine(object):
             self.event_dispatcher.acknowledge(id)
             return
 
-        # Determine the ASL state type of the current state.
-        state_type = state["Type"]
+        # Determine the ASL state type of the current state. If it is missing or
+        # is not a string the execution is failed as an Illegal State Machine.
+        state_type = state.get("Type")
+        if not isinstance(state_type, str):
+            message = ("State \"{}\" has an illegal Type \"{}\": "
+                       "Illegal State Machine.").format(current_state, state_type)
+            self.logger.error(message)
+            handle_error(state, "States.Runtime", message)
+            self.event_dispatcher.acknowledge(id)
+            return
 
         """
         Check if the current execution or branch has been terminated due to a
